@@ -20,7 +20,7 @@
 (* it with TLC): whenever all numbers of an instance fit into TLC integers   *)
 (* at a common scale, the exact model and the unit model give the same       *)
 (* expectation.                                                              *)
-EXTENDS AlleleFilterOps, BigNat
+EXTENDS AlleleFilterOps, BigNat, TLC
 
 Max2(a, b) == IF a > b THEN a ELSE b
 
@@ -81,8 +81,16 @@ XOutcome(x) ==
   ELSE IF Len(XKeptIdx(x)) = 1 /\ XMasked(x) THEN "NOA"
   ELSE "AF0"
 
-XExpect(x) == [kept |-> XKeptIdx(x), masked |-> XMasked(x), w |-> XKeptW(x), den |-> XDen(x),
-               usable |-> XUsable(x), outcome |-> XOutcome(x)]
+(* the expectation in one pass (TLC re-evaluates operator definitions at every use: bind once) *)
+XExpect(x) ==
+  LET k  == XKeptIdx(x)
+      mk == XMasked(x)
+      S  == XScale(x)
+      w  == TLCEval([j \in 1..Len(k) |-> IF k[j] = 1 /\ mk THEN <<>>
+                                         ELSE IF x.tag = "RF" THEN At(x.rf[k[j]], S) ELSE ShiftDec(<<1>>, S)])
+      us == {j \in 1..Len(k) : w[j] # <<>>}
+  IN  [kept |-> k, masked |-> mk, w |-> w, den |-> BnSum(w), usable |-> us,
+       outcome |-> IF us # {} THEN "CALL" ELSE IF Len(k) = 1 /\ mk THEN "NOA" ELSE "AF0"]
 
 (* ---- the law tying the exact model to the unit model --------------------- *)
 RECURSIVE BnToNat(_)
@@ -101,17 +109,23 @@ UnitInstance(x) ==
    rf |-> [i \in DOMAIN x.rf |-> Units(x, x.rf[i])],
    af |-> [i \in DOMAIN x.af |-> Units(x, x.af[i])]]
 
-UnitsAgreeOn(x) ==
+UnitsAgreeOn(x, e) ==          \* e = XExpect(x)
   Fits(x) =>
     LET c == UnitInstance(x)
         f == IF x.tag = "RF" THEN 1                                  \* the flat weight 1 in units
              ELSE IF XScale(x) <= 4 THEN BnToNat(ShiftDec(<<1>>, XScale(x))) ELSE 0
-    IN  /\ KeptIdx(c) = XKeptIdx(x)
-        /\ Masked(c) = XMasked(x)
-        /\ Usable(c) = XUsable(x)
-        /\ Outcome(c) = XOutcome(x)
-        /\ (f > 0 => /\ XKeptW(x) = [j \in 1..Len(KeptIdx(c)) |-> BnFromNat(KeptW(c)[j] * f)]
-                          /\ XDen(x) = BnFromNat(Den(c) * f))
+        u == Expect(c)
+    IN  /\ u.kept = e.kept
+        /\ u.masked = e.masked
+        /\ u.usable = e.usable
+        /\ u.outcome = e.outcome
+        /\ (f > 0 => /\ e.w = [j \in 1..Len(u.kept) |-> BnFromNat(u.w[j] * f)]
+                      /\ e.den = BnFromNat(u.den * f))
+
+(* the one-pass form is the clause-by-clause definition *)
+XExpectIsDeclarative(x, e) ==
+  /\ e.kept = XKeptIdx(x) /\ e.masked = XMasked(x) /\ e.w = XKeptW(x) /\ e.den = XDen(x)
+  /\ e.usable = XUsable(x) /\ e.outcome = XOutcome(x)
 
 (* ---- laws of the order on numbers ---------------------------------------- *)
 (* exactly one of <, ==, > holds; the other operators are their complements  *)
